@@ -205,11 +205,13 @@ attributes (unique names, entity references to the five predefined entities, att
 `\t \n \r -> ' '`, CR LF -> one blank), character data (line-end normalisation), legal characters only
 (no C0 controls except `\t \n \r`, valid UTF-8, no U+FFFE/U+FFFF).  Not accepted although legal XML: numeric
 character references, comments, processing instructions / XML declaration, CDATA, DOCTYPE, a raw '>' in character
-data, non-ASCII names.  `toXML` never writes any of these. -/
+data, non-ASCII names.  a colon in a name. `toXML` never writes any of these. -/
 
 def isWs (c : Char) : Bool := c = ' ' || c = '\t' || c = '\n' || c = '\r'
 
-XX
+/-- names are ASCII and colon-free (a colon would need a namespace declaration for namespace-aware processors) -/
+def nameStart (c : Char) : Bool :=
+  ('a' ≤ c && c ≤ 'z') || ('A' ≤ c && c ≤ 'Z') || c = '_'
 
 def nameChar (c : Char) : Bool := nameStart c || ('0' ≤ c && c ≤ '9') || c = '-' || c = '.'
 
